@@ -298,9 +298,10 @@ func progOf(ss ...gSection) gProgram {
 }
 
 // genPrograms: all base derivations of leg 1, streamed. mode says how much trivia the base gets:
-//   trivAll  : insertion at every token boundary
-//   trivJunc : insertion only around the junction between the two items (pos..pos+1 given by junc)
-//   trivNone : compact and fully spaced spelling only
+//
+//	trivAll  : insertion at every token boundary
+//	trivJunc : insertion only around the junction between the two items (pos..pos+1 given by junc)
+//	trivNone : compact and fully spaced spelling only
 const (
 	trivNone = iota
 	trivJunc
@@ -313,25 +314,6 @@ func genPrograms(thorough bool, emit func(p gProgram, mode int, junc int)) {
 	// 0 sections, 1 section with 0 items
 	emit(gProgram{}, trivAll, 0)
 	emit(progOf(sectionOf("sec", nil)), trivAll, 0)
-	// 1 section, 1 item: every item shape
-	for _, it := range items {
-		emit(progOf(sectionOf("sec", []gItem{it})), trivAll, 0)
-	}
-	// 1 section, 2 items: every item shape with every representative neighbour, both orders
-	pairMode := trivNone
-	if thorough {
-		pairMode = trivJunc
-	}
-	pairReps := reps
-	if !thorough {
-		pairReps = []gItem{reps[0], reps[4], reps[6], reps[8]} // one of each item kind
-	}
-	for _, it := range items {
-		for _, r := range pairReps {
-			emit(progOf(sectionOf("sec", []gItem{it, r})), pairMode, 2+len(it.toks))
-			emit(progOf(sectionOf("sec", []gItem{r, it})), pairMode, 2+len(r.toks))
-		}
-	}
 	// nested sections: inner section with 0..2 representative items, as only item / before / after a representative
 	var inners []gSection
 	inners = append(inners, sectionOf("in", nil))
@@ -373,6 +355,26 @@ func genPrograms(thorough bool, emit func(p gProgram, mode int, junc int)) {
 					emit(progOf(a, b2, c2), trivAll, 0)
 				}
 			}
+		}
+	}
+	// (the large products come last, so that an internal deadline cuts only their tail)
+	// 1 section, 1 item: every item shape
+	for _, it := range items {
+		emit(progOf(sectionOf("sec", []gItem{it})), trivAll, 0)
+	}
+	// 1 section, 2 items: every item shape with every representative neighbour, both orders
+	pairMode := trivNone
+	if thorough {
+		pairMode = trivJunc
+	}
+	pairReps := reps
+	if !thorough {
+		pairReps = []gItem{reps[0], reps[4], reps[6], reps[8]} // one of each item kind
+	}
+	for _, it := range items {
+		for _, r := range pairReps {
+			emit(progOf(sectionOf("sec", []gItem{it, r})), pairMode, 2+len(it.toks))
+			emit(progOf(sectionOf("sec", []gItem{r, it})), pairMode, 2+len(r.toks))
 		}
 	}
 }
